@@ -856,6 +856,24 @@ def targeted_sets(seed):
     out.append(('many-deps:20:references', {'alpha': M([('pats', M(pm)),
                ('node', M([('log', L([])), ('last', S('none')),
                            ('__patch', L([S('/pats/p%02d' % i) for i in range(20)]))]))])}))
+    # 15. the automatic `<name>.custom` patch next to every kind of root-level dependency: the custom patch is skipped only
+    #     when the root already carries an explicit __patch (AutoPatchConfigPlugin); a root __include, pending children
+    #     with directives, both, or neither must leave it applied - after the includes, as the last patch
+    cust = M([('patch', M([('u/name', S('custom')), ('u/items/@next', w()), ('extra', w()), ('own/k', S('custom'))]))])
+    roots = {
+        'plain': [('own', M([('k', S('base'))]))],
+        'root-include': [('__include', S('base:/')), ('own', M([('k', S('base'))]))],
+        'root-include-optional-missing': [('__include', S('nosuch:/?')), ('own', M([('k', S('base'))]))],
+        'child-include': [('own', M([('__include', S('base:/u/sub')), ('k', S('base'))]))],
+        'root-include+child-include': [('__include', S('base:/')), ('own', M([('__include', S('base:/u/sub')), ('k', S('base'))]))],
+        'root-patch': [('own', M([('k', S('base'))])), ('__patch', M([('own/k', S('explicit'))]))],
+        'root-include+root-patch': [('__include', S('base:/')), ('own', M([('k', S('base'))])), ('__patch', M([('u/name', S('explicit'))]))],
+        'child-patch': [('own', M([('k', S('base')), ('__patch', M([('k', S('child'))]))]))],
+    }
+    for name, body in roots.items():
+        out.append(('custom-vs-root:' + name, {'base': base, 'alpha': M(body), 'alpha.custom': cust}))
+        out.append(('custom-vs-root:' + name + ':schema', {'base': base, 'default': M([('menu', M([('page_size', S('5'))]))]),
+                                                           'alpha.schema': M(body), 'alpha.custom': cust}))
     return out
 
 
